@@ -9,14 +9,10 @@
   it is exercised on the real code by the harness (decrypted result = `M·v` exactly mod t / within
   2^-8 for ckks) and belongs to C04/C11.
 
-  Two deviations of the real code from the property were found, are reproduced by the model
-  (`EvalRes.stale`, `EvalRes.garbage`), exhibited by failing probes, and proved below as
-  counterexamples:
-    * `naive_main_diagonal_only_counterexample` — `MultiplyByDiagMatrix` with the main diagonal as
-      the only diagonal never assigns its accumulator;
-    * `evaluateMany_clobber_counterexample` — `EvaluateMany` with several transformations reuses a
-      hoisted decomposition that the first BSGS transformation has overwritten.
-  plus `at_counterexample` (`Diagonals.At` does not implement the documented `-i ≡ n-i`).
+  The model follows the code with the fixes C12-1 (EvaluateMany recomputes the hoisted decomposition
+  for every transformation), C12-2 (the naive algorithm without any off-main diagonal; the zero
+  matrix) and C12-3 (`Diagonals.At` for negative indices) applied; the former counterexample theorems
+  are now the positive `evaluateMany_spec`, `naive_spec` (no restriction), `at_spec`.
 -/
 import Lattigo.Proofs.LinTransMatrix
 
@@ -46,38 +42,32 @@ theorem rows_independent (n : Nat) (ds : List Int) (diag diag' : Int → Slots n
   simp only [matVec, hv, hd]
 
 /-- **naive algorithm**: `MultiplyByDiagMatrix` on the diagonals as `Encode` stores them (no
-    pre-rotation) returns `Σ_d diag_d ⊙ rot_d v` whenever there is a diagonal besides the main one;
-    abstract carrier. -/
+    pre-rotation) returns `Σ_d diag_d ⊙ rot_d v` for EVERY list of distinct normalised indices — the
+    main diagonal alone and the empty list (zero matrix) included; abstract carrier. -/
 theorem naive_spec {α : Type} (O : SlotOps α) (n : Nat) (L : SlotLaws O n) (ks : List Int)
-    (hr : ∀ k ∈ ks, 0 ≤ k ∧ k < (n : Int)) (hnd : ks.Nodup) (hnz : ∃ k ∈ ks, k ≠ 0)
+    (hr : ∀ k ∈ ks, 0 ≤ k ∧ k < (n : Int)) (hnd : ks.Nodup)
     (diag : Int → α) (v : α) :
     evalNaive O n (ks.map fun k => (k, diag k)) v = .val (diagSum O ks diag v) :=
-  evalNaive_eq L ks hr hnd hnz diag v
+  evalNaive_eq L ks hr hnd diag v
 
-/-- the hypothesis `hnz` is forced by the code: with the main diagonal alone the accumulator
-    (`opOut`, `BuffQP[5]`) is reduced and mod-downed without ever having been assigned.
-    circuits/common/lintrans/lintrans_evaluator.go:177-247. -/
-theorem naive_main_diagonal_only_counterexample {α : Type} (O : SlotOps α) (n : Nat) (d v : α) :
-    evalNaive O n [(0, d)] v = .stale (some (O.mul d v)) :=
-  evalNaive_only_main_diagonal O n d v
-
-/-- … and evaluated in place (`opOut == ctIn`, as the package's own tests do for other matrices)
-    the result is not the specified one. -/
-theorem naive_main_diagonal_only_inplace_counterexample :
-    (match evalMany (fnOps 4)
-        [{ N1 := 0, logCols := 2, levelQ := 1, scale := 1, vec := [(0, fun _ _ => 1)] }]
-        (fun _ _ => 1) false with
-      | [.garbage] => true | _ => false) = true := by decide
+/-- the case the unpatched code got wrong: the main diagonal alone is `diag_0 ⊙ v` -/
+theorem naive_main_diagonal_only {α : Type} (O : SlotOps α) (n : Nat) (L : SlotLaws O n) (hn : 0 < n)
+    (d v : α) : evalNaive O n [(0, d)] v = .val (O.mul d v) := by
+  have h := evalNaive_eq L [0] (by intro k hk; simp at hk; subst hk; exact ⟨le_refl _, by exact_mod_cast hn⟩)
+    (by simp) (fun _ => d) v
+  simp only [List.map_cons, List.map_nil] at h
+  rw [h]
+  simp [diagSum, sumL, L.rot_zero, L.add_zero]
 
 /-- **bsgs_regroup**: for EVERY baby-step size `N1 > 0` — so for every
-    `LogBabyStepGiantStepRatio` — and every non-empty list of normalised diagonal indices,
+    `LogBabyStepGiantStepRatio` — and every list of normalised diagonal indices (also the empty one),
     `Σ_j rot_j( Σ_i rot_{-j}(diag_{j+i}) ⊙ rot_i v ) = Σ_d diag_d ⊙ rot_d v`, where the left side is
     `MultiplyByDiagMatrixBSGS` run on the diagonals pre-rotated as `Encode` does. -/
 theorem bsgs_regroup {α : Type} (O : SlotOps α) (n : Nat) (L : SlotLaws O n) (N1 : Nat) (hN : 0 < N1)
-    (ks : List Int) (hr : ∀ k ∈ ks, 0 ≤ k ∧ k < (n : Int)) (hne : ks ≠ [])
+    (ks : List Int) (hr : ∀ k ∈ ks, 0 ≤ k ∧ k < (n : Int))
     (diag : Int → α) (v : α) :
     evalBSGS O n N1 (ks.map fun k => (k, preRot O n N1 k (diag k))) v = .val (diagSum O ks diag v) :=
-  evalBSGS_eq L N1 hN ks hr hne diag v
+  evalBSGS_eq L N1 hN ks hr diag v
 
 /-- the laws are satisfiable: the carrier the driver executes on is lawful -/
 example (n : Nat) : SlotLaws (fnOps n) n := fnOps_laws n
@@ -85,13 +75,13 @@ example (n : Nat) : SlotLaws (fnOps n) n := fnOps_laws n
 /-- **end to end, BSGS** on the execution carrier: `Encode` (which looks every allocated key up
     with `Diagonals.At`) followed by `MultiplyByDiagMatrixBSGS` is the matrix–vector product. -/
 theorem lintrans_bsgs_spec (n N1 : Nat) (hN : 0 < N1) (keys : List Int)
-    (hr : ∀ k ∈ keys, 0 ≤ k ∧ k < (n : Int)) (hne : keys ≠ [])
+    (hr : ∀ k ∈ keys, 0 ≤ k ∧ k < (n : Int))
     (diagonals : List (Int × Slots n)) (D : Int → Slots n)
     (hAt : ∀ k ∈ keys, diagAt diagonals k n = some (D k)) (v : Slots n) :
     ∃ vec, encode (fnOps n) n N1 keys diagonals = some vec ∧
       evalBSGS (fnOps n) n N1 vec v = .val (matVec n keys D v) := by
   refine ⟨_, encode_bsgs (fnOps n) n N1 (Nat.pos_iff_ne_zero.1 hN) keys diagonals D hAt, ?_⟩
-  rw [evalBSGS_eq (fnOps_laws n) N1 hN keys hr hne D v, diagSum_fn]
+  rw [evalBSGS_eq (fnOps_laws n) N1 hN keys hr D v, diagSum_fn]
 
 /-- non-vacuity: diagonals given with a negative spelling are found by `At` under their normalised key -/
 example : diagAt [((-3 : Int), (7 : Int)), (1, 8)] 5 8 = some 7 ∧ diagAt [((-3 : Int), (7 : Int)), (1, 8)] 1 8 = some 8 := by
@@ -99,33 +89,49 @@ example : diagAt [((-3 : Int), (7 : Int)), (1, 8)] 5 8 = some 7 ∧ diagAt [((-3
 
 /-- both algorithms agree -/
 theorem bsgs_eq_naive {α : Type} (O : SlotOps α) (n : Nat) (L : SlotLaws O n) (N1 : Nat) (hN : 0 < N1)
-    (ks : List Int) (hr : ∀ k ∈ ks, 0 ≤ k ∧ k < (n : Int)) (hnd : ks.Nodup) (hnz : ∃ k ∈ ks, k ≠ 0)
+    (ks : List Int) (hr : ∀ k ∈ ks, 0 ≤ k ∧ k < (n : Int)) (hnd : ks.Nodup)
     (diag : Int → α) (v : α) :
     evalBSGS O n N1 (ks.map fun k => (k, preRot O n N1 k (diag k))) v
       = evalNaive O n (ks.map fun k => (k, diag k)) v := by
-  have hne : ks ≠ [] := by obtain ⟨k, hk, _⟩ := hnz; intro h; rw [h] at hk; simp at hk
-  rw [evalBSGS_eq L N1 hN ks hr hne, evalNaive_eq L ks hr hnd hnz]
+  rw [evalBSGS_eq L N1 hN ks hr, evalNaive_eq L ks hr hnd]
 
 /-! ## EvaluateMany -/
 
-/-- a single transformation through `EvaluateMany` is the plain evaluation -/
-theorem evaluateMany_single {α : Type} (O : SlotOps α) (lt : LinTrans.LT α) (v : α) (fresh : Bool) :
-    evalMany O [lt] v fresh = [resolveStale O fresh (evalOne O lt v)] := by
-  unfold evalMany manyStep evalOne
-  by_cases h : lt.N1 = 0
-  · simp [h]
-  · simp [h, reqPreRot]
+/-- a transformation as `NewLinearTransformation` + `Encode` produce it from `(N1, ks, diag)`:
+    naive (`N1 = 0`) stores the diagonals, BSGS stores them pre-rotated -/
+def mkLT {α : Type} (O : SlotOps α) (logCols : Nat) (s : Nat × List Int × (Int → α)) : LinTrans.LT α :=
+  { N1 := s.1, logCols := logCols, levelQ := 0, scale := 1,
+    vec := if s.1 = 0 then s.2.1.map fun k => (k, s.2.2 k)
+           else s.2.1.map fun k => (k, preRot O (2 ^ logCols) s.1 k (s.2.2 k)) }
 
-/-- **`EvaluateMany` with several transformations is wrong**: a BSGS transformation with a non-zero
-    giant step (here diagonals {0,2}, N1 = 2) followed by any transformation that still needs the
-    hoisted decomposition (here the naive shift by 1).  Real code: `GadgetProductLazy` overwrites
-    `eval.BuffDecompQP[0]`, the very buffer `EvaluateMany` hoisted the decomposition of `ctIn` into. -/
-theorem evaluateMany_clobber_counterexample :
-    (match evalMany (fnOps 4)
-        [{ N1 := 2, logCols := 2, levelQ := 1, scale := 1, vec := [(0, fun _ _ => 1), (2, fun _ _ => 1)] },
-         { N1 := 0, logCols := 2, levelQ := 1, scale := 1, vec := [(1, fun _ _ => 1)] }]
-        (fun _ _ => 1) true with
-      | [.val _, .garbage] => true | _ => false) = true := by decide
+/-- **evaluateMany_spec**: `EvaluateMany` on ANY number of transformations (naive and BSGS mixed, any
+    baby-step sizes) returns, for each of them, `Σ_d diag_d ⊙ rot_d v` of the SAME input `v`. -/
+theorem evaluateMany_spec {α : Type} (O : SlotOps α) (logCols : Nat) (L : SlotLaws O (2 ^ logCols))
+    (specs : List (Nat × List Int × (Int → α)))
+    (hr : ∀ s ∈ specs, ∀ k ∈ s.2.1, 0 ≤ k ∧ k < ((2 ^ logCols : Nat) : Int))
+    (hnd : ∀ s ∈ specs, s.2.1.Nodup) (v : α) :
+    evalMany O (specs.map (mkLT O logCols)) v = specs.map fun s => .val (diagSum O s.2.1 s.2.2 v) := by
+  unfold evalMany
+  rw [List.map_map]
+  apply List.map_congr_left
+  intro s hs
+  simp only [Function.comp, evalOne, mkLT]
+  by_cases h0 : s.1 = 0
+  · simp only [h0, if_true]
+    exact evalNaive_eq L s.2.1 (hr s hs) (hnd s hs) s.2.2 v
+  · simp only [h0, if_false]
+    exact evalBSGS_eq L s.1 (Nat.pos_of_ne_zero h0) s.2.1 (hr s hs) s.2.2 v
+
+/-- non-vacuity: the pair of transformations the unpatched `EvaluateMany` got wrong (BSGS with a
+    non-zero giant step, then the naive shift by 1) -/
+example : ∀ s ∈ [((2 : Nat), ([0, 2] : List Int)), (0, [1])], ∀ k ∈ s.2, 0 ≤ k ∧ k < ((2 ^ 2 : Nat) : Int) := by
+  decide
+
+/-- `EvaluateSequential` composes: two transformations give the second applied to the first -/
+theorem evaluateSequential_two {α : Type} (O : SlotOps α) (lt0 lt1 : LinTrans.LT α) (v w : α)
+    (h0 : evalOne O lt0 v = .val w) :
+    evalSeq O [lt0, lt1] v = evalOne O lt1 w := by
+  simp [evalSeq, h0]
 
 /-! ## Galois keys -/
 
@@ -164,24 +170,31 @@ theorem meta_spec (t ol cl ll cs ls : Nat) :
 
 /-! ## `Diagonals.At` -/
 
-/-- documented: "Method accepts negative values with the equivalency -i = n - i".  As coded
-    (`else if j < 0` tests the freshly declared `j`, not `i`), a non-positive index absent from the
-    map is an error even when the equivalent key is present.  lintrans.go:97-122. -/
-theorem at_counterexample : diagAt [((5 : Int), (1 : Int))] (-3) 8 = none := by decide
+/-- **at_spec**: "accepts negative values with the equivalency -i = n - i": an index absent from the map
+    is looked up under its other spelling, `i + n` for `i < 0`, `i - n` for `i > 0` -/
+theorem at_spec {β : Type} (m : List (Int × β)) (i : Int) (n : Nat) (h : lookupI i m = none) :
+    (i < 0 → diagAt m i n = lookupI (i + n) m) ∧ (0 < i → diagAt m i n = lookupI (i - n) m) := by
+  constructor
+  · intro hi
+    have : ¬ i > 0 := by omega
+    simp [diagAt, h, this, hi]
+  · intro hi
+    simp [diagAt, h, hi]
+
+example : diagAt [((5 : Int), (1 : Int))] (-3) 8 = some 1 := by decide
 
 #print axioms diag_method
 #print axioms rows_independent
 #print axioms naive_spec
-#print axioms naive_main_diagonal_only_counterexample
-#print axioms naive_main_diagonal_only_inplace_counterexample
+#print axioms naive_main_diagonal_only
 #print axioms bsgs_regroup
 #print axioms lintrans_bsgs_spec
 #print axioms bsgs_eq_naive
-#print axioms evaluateMany_single
-#print axioms evaluateMany_clobber_counterexample
+#print axioms evaluateMany_spec
+#print axioms evaluateSequential_two
 #print axioms lintrans_keys_sufficient
 #print axioms findBestBSGSRatio_pos
 #print axioms meta_spec
-#print axioms at_counterexample
+#print axioms at_spec
 
 end Lattigo.Props.C12
